@@ -90,6 +90,24 @@ func main() {
 				fmt.Println("RLIMITERR", err)
 				os.Exit(2)
 			}
+		case strings.HasPrefix(a, "indexcut="):
+			// the write of the index entry is cut short after N bytes (RLIMIT_FSIZE set once the index file
+			// is open) and the process halts before its next file operation
+			n, _ := strconv.ParseUint(a[9:], 10, 64)
+			cache.VerifSetHook(func(point string) {
+				switch point {
+				case "cache.putIndex.afterOpen":
+					signal.Ignore(syscall.SIGXFSZ)
+					lim := syscall.Rlimit{Cur: n, Max: n}
+					if err := syscall.Setrlimit(syscall.RLIMIT_FSIZE, &lim); err != nil {
+						fmt.Println("RLIMITERR", err)
+						os.Exit(2)
+					}
+				case "cache.putIndex.afterWrite":
+					fmt.Println("HALTED after the index write")
+					os.Exit(0)
+				}
+			})
 		case strings.HasPrefix(a, "flip="):
 			// the source delivers a different byte at this offset on its second pass
 			off, _ := strconv.Atoi(a[5:])
